@@ -258,6 +258,10 @@ def run_isolated(fn, *args, timeout=180):
             import signal
             signal.signal(signal.SIGALRM, signal.SIG_DFL)
             signal.alarm(int(timeout))
+            # everything that exists at this point (the interpreter, pane, yaml, the harness) is shared, immortal
+            # state of the pristine image: collections inside the run look only at what the run itself creates
+            import gc
+            gc.freeze()
             try:
                 res = ('ok', fn(*args))
             except BaseException:  # noqa
